@@ -576,6 +576,14 @@ class Engine:
             ty = base.ty
             if isinstance(ty, Record) and ty.has(attr):
                 return Val(ty.get(base.term, attr), ty.field_ty(attr))
+            if isinstance(ty, (Record, Enum)) and getattr(ty, "pycls", None) and self.src.has_module(ty.pycls[0]):
+                fi = self.src.find_method(ty.pycls[0], ty.pycls[1], attr)
+                if fi is not None and any((isinstance(d, ast.Name) and d.id in ("property", "cached_property")) or
+                                          (isinstance(d, ast.Attribute) and d.attr in ("property", "cached_property")) for d in fi.node.decorator_list):
+                    res = self.inline_call(st, fi.key, base, [], {}, self.reg.contracts.get(fi.key))
+                    if len(res) == 1 and res[0][0] == OK:
+                        return res[0][2]    # a property: reading it runs its (real) body
+                    raise Unsupported(f"property {attr} with several outcomes")
             if isinstance(ty, Enum) and attr == "value":
                 return ops.enum_value(base)
             if isinstance(ty, Enum) and attr == "name":
